@@ -97,3 +97,376 @@ Proof.
   split; [apply pre_hy|]. split; [apply pre_nn|]. split; [apply pre_tva|].
   split; [apply is_set_pre; apply set_sp|apply is_set_pre; apply set_amp].
 Qed.
+
+(** * Fourth pass, item (2): the assembly.
+    Every step goes through a projection lemma stated on a VARIABLE command (so that no [cbn]/conversion ever sees
+    [build_self] of a concrete or destructed command). *)
+Lemma build_self_built c : s_built (c_set c) = true -> build_self c = c.
+Proof. intros H. unfold build_self. rewrite H. reflexivity. Qed.
+Lemma build_self_unbuilt c : s_built (c_set c) = false -> build_self c = bs_mark (bs_deprecated (pre_build c)).
+Proof. intros H. unfold build_self, pre_build. rewrite H. reflexivity. Qed.
+
+Lemma args_mark x : c_args (bs_mark x) = c_args x.
+Proof. reflexivity. Qed.
+Lemma args_deprecated x : exists h, c_args (bs_deprecated x) = map (bs_deprecated_arg x h) (c_args x).
+Proof. eexists. reflexivity. Qed.
+Lemma args_bs_args x : c_args (bs_args x) = fst (build_args (c_args x) (c_groups x) 1).
+Proof. reflexivity. Qed.
+Lemma args_globals x : c_args (bs_globals x) = c_args x.
+Proof. reflexivity. Qed.
+Lemma args_propagate x : c_args (bs_propagate x) = c_args x.
+Proof. reflexivity. Qed.
+Lemma args_settings x : c_args (bs_settings x) = c_args x.
+Proof. unfold bs_settings. repeat match goal with |- context [if ?b then _ else _] => destruct b end; reflexivity. Qed.
+(** [_check_help_and_version] appends at most the generated help and version flags *)
+Lemma args_help_version x : exists l, c_args (bs_help_version x) = c_args x ++ l /\ (forall a, In a l -> a = help_arg \/ a = version_arg).
+Proof.
+  unfold bs_help_version.
+  destruct (negb (is_set s_disable_help_flag x)) eqn:E1.
+  - destruct (negb (is_disable_version_flag_set (x <| c_args := c_args x ++ [help_arg] |>))) eqn:E2.
+    + exists [help_arg; version_arg]. split.
+      * match goal with |- context [if ?b then _ else _] => destruct b end;
+          (transitivity ((c_args x ++ [help_arg]) ++ [version_arg]); [reflexivity|rewrite <- app_assoc; reflexivity]).
+      * intros a [<-|[<-|[]]]; auto.
+    + exists [help_arg]. split.
+      * match goal with |- context [if ?b then _ else _] => destruct b end; reflexivity.
+      * intros a [<-|[]]; auto.
+  - destruct (negb (is_disable_version_flag_set x)) eqn:E2.
+    + exists [version_arg]. split.
+      * match goal with |- context [if ?b then _ else _] => destruct b end; reflexivity.
+      * intros a [<-|[]]; auto.
+    + exists []. split.
+      * rewrite app_nil_r. match goal with |- context [if ?b then _ else _] => destruct b end; reflexivity.
+      * intros a [].
+Qed.
+
+(** the arguments of the built command: the declared ones, then the generated flags, each through [Arg::_build]
+    and the index assignment, then the deprecated-settings push *)
+Lemma args_pre_build c : exists l g, c_args (pre_build c) = fst (build_args (c_args c ++ l) g 1) /\
+  (forall a, In a l -> a = help_arg \/ a = version_arg).
+Proof.
+  unfold pre_build. rewrite args_bs_args, args_globals.
+  destruct (args_help_version (bs_propagate (bs_settings c))) as [l [E Hl]]. rewrite E, args_propagate, args_settings.
+  exists l. eexists. split; [reflexivity|exact Hl].
+Qed.
+
+Lemma is_set_mark (f : settings -> bool) x : (forall s, f (s <| s_built := true |>) = f s) -> is_set f (bs_mark x) = is_set f x.
+Proof.
+  intros H. unfold is_set. change (c_set (bs_mark x)) with ((c_set x) <| s_built := true |>).
+  change (c_gset (bs_mark x)) with (c_gset x). rewrite H. reflexivity.
+Qed.
+Lemma is_set_deprecated (f : settings -> bool) x : is_set f (bs_deprecated x) = is_set f x.
+Proof. reflexivity. Qed.
+
+Lemma is_set_build_self (f : settings -> bool) c : (forall s, f (s <| s_built := true |>) = f s) ->
+  (f (c_set (bs_settings c)) = f (c_set c) || f (c_gset c)) ->
+  is_set f (build_self c) = is_set f c.
+Proof.
+  intros Hm Hs. destruct (s_built (c_set c)) eqn:Eb.
+  - rewrite (build_self_built c Eb). reflexivity.
+  - rewrite (build_self_unbuilt c Eb), (is_set_mark f _ Hm), is_set_deprecated. apply is_set_pre. exact Hs.
+Qed.
+
+Lemma valid_assert_app c0 : valid c0 = true -> assert_app (build_self c0) = true.
+Proof.
+  unfold valid. cbv zeta. generalize (build_self c0). intros b H. cbn [valid_tree] in H.
+  apply andb_prop in H. apply H.
+Qed.
+
+(** per-argument predicates that survive [Arg::_build], the index assignment and (with the three deprecated settings
+    off) the push: [P] on the declared arguments and on the two generated flags gives [P'] on the built ones *)
+Lemma build_args_pred (P P' : arg -> bool) :
+  (forall a, P a = true -> a_is_positional (arg_build a) && negb (is_some (a_index (arg_build a))) = false -> P' (arg_build a) = true) ->
+  (forall a n, P a = true -> a_is_positional (arg_build a) = true -> a_index (arg_build a) = None ->
+               P' ((arg_build a) <| a_index := Some n |>) = true) ->
+  forall args groups pc, forallb P args = true -> forallb P' (fst (build_args args groups pc)) = true.
+Proof.
+  intros H1 H2. induction args as [|a t IH]; intros groups pc H; [reflexivity|]. cbn [forallb] in H. apply andb_prop in H. destruct H as [Ha Ht].
+  cbn [build_args].
+  destruct (a_is_positional (arg_build a) && negb (is_some (a_index (arg_build a)))) eqn:E.
+  - specialize (IH (add_arg_to_groups (a_id a) (a_groups a) groups) (pc + 1) Ht).
+    destruct (build_args t (add_arg_to_groups (a_id a) (a_groups a) groups) (pc + 1)) as [t' g']. cbn [fst forallb] in *.
+    apply andb_prop in E. destruct E as [E1 E2]. rewrite IH, andb_true_r. apply H2; [exact Ha|exact E1|].
+    destruct (a_index (arg_build a)); [discriminate|reflexivity].
+  - specialize (IH (add_arg_to_groups (a_id a) (a_groups a) groups) pc Ht).
+    destruct (build_args t (add_arg_to_groups (a_id a) (a_groups a) groups) pc) as [t' g']. cbn [fst forallb] in *.
+    rewrite IH, (H1 a Ha E). reflexivity.
+Qed.
+
+Lemma built_args_pred (P P' : arg -> bool) c :
+  (forall a, P a = true -> a_is_positional (arg_build a) && negb (is_some (a_index (arg_build a))) = false -> P' (arg_build a) = true) ->
+  (forall a n, P a = true -> a_is_positional (arg_build a) = true -> a_index (arg_build a) = None ->
+               P' ((arg_build a) <| a_index := Some n |>) = true) ->
+  P help_arg = true -> P version_arg = true ->
+  (s_built (c_set c) = true -> forallb P' (c_args c) = true) ->
+  is_set s_allow_hyphen c = false -> is_set s_allow_negnum c = false -> is_set s_tva c = false ->
+  forallb P (c_args c) = true -> forallb P' (c_args (build_self c)) = true.
+Proof.
+  intros H1 H2 Hh Hv Hb S1 S2 S3 HP. destruct (s_built (c_set c)) eqn:Eb.
+  - rewrite (build_self_built c Eb). apply Hb. reflexivity.
+  - rewrite (build_self_unbuilt c Eb), args_mark.
+    destruct (args_deprecated (pre_build c)) as [h E]. rewrite E.
+    assert (Em : map (bs_deprecated_arg (pre_build c) h) (c_args (pre_build c)) = c_args (pre_build c)).
+    { rewrite <- (map_id (c_args (pre_build c))) at 2. apply map_ext. intros a.
+      apply deprecated_conv; [rewrite pre_hy; exact S1|rewrite pre_nn; exact S2|rewrite pre_tva; exact S3]. }
+    rewrite Em. destruct (args_pre_build c) as [l [g [El Hl]]]. rewrite El.
+    apply (build_args_pred P P' H1 H2). rewrite forallb_app, HP. cbn [andb].
+    apply forallb_forall. intros a Ha. destruct (Hl a Ha) as [->| ->]; assumption.
+Qed.
+
+(** THE BRIDGE, old class: a command as written, passing the validity gate, without the five command-level settings and
+    with conventional arguments only, is in [conv] once built -- all commands.  (The low-index conjunct is kept as a
+    hypothesis on the built command here; [low_index_of_user] below derives it from the declared arguments.) *)
+Theorem conv_of_conventional0 c0 : valid c0 = true -> conventional0 c0 = true ->
+  low_index_multiple (build_self c0) = false -> conv (build_self c0) = true.
+Proof.
+  intros Hv Hc Hl. unfold conventional0 in Hc.
+  apply andb_prop in Hc. destruct Hc as [Hc Hargs]. apply andb_prop in Hc. destruct Hc as [Hc Htva].
+  apply andb_prop in Hc. destruct Hc as [Hc Hnn]. apply andb_prop in Hc. destruct Hc as [Hc Hhy]. apply andb_prop in Hc. destruct Hc as [Hsp Hamp].
+  unfold conv. rewrite (valid_assert_app c0 Hv), Hl.
+  rewrite (is_set_build_self s_sub_precedence c0 (fun s => eq_refl) (set_sp c0)).
+  rewrite (is_set_build_self s_allow_missing_pos c0 (fun s => eq_refl) (set_amp c0)).
+  rewrite Hsp, Hamp. cbn [andb negb]. rewrite !andb_true_r.
+  apply (built_args_pred conv_arg conv_arg c0).
+  - intros a Ha _. rewrite conv_arg_build. exact Ha.
+  - intros a n Ha _ _. rewrite conv_arg_index, conv_arg_build. exact Ha.
+  - reflexivity.
+  - reflexivity.
+  - intros _. exact Hargs.
+  - destruct (is_set s_allow_hyphen c0); [discriminate|reflexivity].
+  - destruct (is_set s_allow_negnum c0); [discriminate|reflexivity].
+  - destruct (is_set s_tva c0); [discriminate|reflexivity].
+  - exact Hargs.
+Qed.
+
+(** ** the low-index conjunct from the declared arguments *)
+(** [Arg::_build] touches neither the names nor the index *)
+Ltac ab_block := intros ?; repeat match goal with |- context [match ?x with _ => _ end] => destruct x end; reflexivity.
+Lemma ab_long a : a_long (arg_build a) = a_long a.
+Proof.
+  unfold arg_build.
+  assert (H1 : forall a, a_long (ab_num a) = a_long a) by (unfold ab_num; ab_block).
+  assert (H2 : forall a, a_long (ab_vp a) = a_long a) by (unfold ab_vp; ab_block).
+  assert (H3 : forall a, a_long (ab_dmissing a) = a_long a) by (unfold ab_dmissing; ab_block).
+  assert (H4 : forall a, a_long (ab_default a) = a_long a) by (unfold ab_default; ab_block).
+  assert (H5 : forall a, a_long (ab_action a) = a_long a) by (unfold ab_action; ab_block).
+  rewrite H1, H2, H3, H4, H5. reflexivity.
+Qed.
+Lemma ab_short a : a_short (arg_build a) = a_short a.
+Proof.
+  unfold arg_build.
+  assert (H1 : forall a, a_short (ab_num a) = a_short a) by (unfold ab_num; ab_block).
+  assert (H2 : forall a, a_short (ab_vp a) = a_short a) by (unfold ab_vp; ab_block).
+  assert (H3 : forall a, a_short (ab_dmissing a) = a_short a) by (unfold ab_dmissing; ab_block).
+  assert (H4 : forall a, a_short (ab_default a) = a_short a) by (unfold ab_default; ab_block).
+  assert (H5 : forall a, a_short (ab_action a) = a_short a) by (unfold ab_action; ab_block).
+  rewrite H1, H2, H3, H4, H5. reflexivity.
+Qed.
+Lemma ab_index a : a_index (arg_build a) = a_index a.
+Proof.
+  unfold arg_build.
+  assert (H1 : forall a, a_index (ab_num a) = a_index a) by (unfold ab_num; ab_block).
+  assert (H2 : forall a, a_index (ab_vp a) = a_index a) by (unfold ab_vp; ab_block).
+  assert (H3 : forall a, a_index (ab_dmissing a) = a_index a) by (unfold ab_dmissing; ab_block).
+  assert (H4 : forall a, a_index (ab_default a) = a_index a) by (unfold ab_default; ab_block).
+  assert (H5 : forall a, a_index (ab_action a) = a_index a) by (unfold ab_action; ab_block).
+  rewrite H1, H2, H3, H4, H5. reflexivity.
+Qed.
+Lemma ab_positional a : a_is_positional (arg_build a) = a_is_positional a.
+Proof. unfold a_is_positional. rewrite ab_long, ab_short. reflexivity. Qed.
+
+(** on the command as written: no explicit index; a positional that takes several values or appends (after
+    [Arg::_build] has filled in action and value range) is the last declared positional *)
+Definition npos (l : list arg) : nat := length (filter a_is_positional l).
+Definition no_index (l : list arg) : bool := forallb (fun a => negb (is_some (a_index a))) l.
+Fixpoint last_only_multiple (l : list arg) : bool :=
+  match l with
+  | [] => true
+  | a :: t => (negb (a_is_positional a && a_is_multiple (arg_build a)) || (npos t =? 0)%nat) && last_only_multiple t
+  end.
+
+(** the low-index test as a function of the argument list *)
+Definition has_idx (a : arg) : bool := is_some (a_index a).
+Definition lim_args (args : list arg) : bool :=
+  existsb (fun a => a_is_multiple a && negb (N.of_nat (length (filter has_idx args)) =? opt_default 0 (a_index a)))
+          (filter a_is_positional args).
+
+Lemma keymap_pos_count : forall args,
+  length (filter (fun p : key * arg => match fst p with KPos _ => true | _ => false end)
+                 (flat_map (fun a => map (fun k => (k, a)) (arg_keys a)) args)) = length (filter has_idx args).
+Proof.
+  induction args as [|a t IH]; [reflexivity|]. cbn [flat_map]. rewrite filter_app, app_length, IH. cbn [filter].
+  unfold has_idx, arg_keys. destruct (a_index a) as [n|]; cbn [is_some]; [reflexivity|].
+  assert (E : forall (l : list key), (forall k, In k l -> match k with KPos _ => false | _ => true end = true) ->
+              filter (fun p : key * arg => match fst p with KPos _ => true | _ => false end) (map (fun k => (k, a)) l) = []).
+  { induction l as [|k l IHl]; intros H; [reflexivity|]. cbn [map filter fst].
+    pose proof (H k (or_introl eq_refl)) as Hk. destruct k; try discriminate Hk; apply IHl; intros k' Hk'; apply H; right; exact Hk'. }
+  rewrite E; [reflexivity|]. intros k Hk. repeat (apply in_app_or in Hk; destruct Hk as [Hk|Hk]).
+  - destruct (a_short a); [destruct Hk as [<-|[]]; reflexivity|destruct Hk].
+  - destruct (a_long a); [destruct Hk as [<-|[]]; reflexivity|destruct Hk].
+  - apply in_map_iff in Hk. destruct Hk as [p [<- _]]. reflexivity.
+  - apply in_map_iff in Hk. destruct Hk as [p [<- _]]. reflexivity.
+Qed.
+
+Lemma low_index_lim c : low_index_multiple c = lim_args (c_args c).
+Proof.
+  unfold low_index_multiple, lim_args, positional_count, positionals, keymap. rewrite keymap_pos_count. reflexivity.
+Qed.
+
+Lemma multiple_index a x : a_is_multiple (a <| a_index := x |>) = a_is_multiple a.
+Proof. reflexivity. Qed.
+Lemma positional_index a x : a_is_positional (a <| a_index := x |>) = a_is_positional a.
+Proof. reflexivity. Qed.
+
+Lemma npos_cons a t : npos (a :: t) = if a_is_positional a then S (npos t) else npos t.
+Proof. unfold npos. cbn [filter]. destruct (a_is_positional a); reflexivity. Qed.
+
+Lemma build_args_idx : forall L g pc, no_index L = true ->
+  length (filter has_idx (fst (build_args L g pc))) = npos L /\
+  (last_only_multiple L = true -> forall a', In a' (fst (build_args L g pc)) -> a_is_positional a' = true ->
+     a_is_multiple a' = true -> a_index a' = Some (pc + N.of_nat (npos L) - 1)).
+Proof.
+  induction L as [|a t IH]; intros g pc Hn; [split; [reflexivity|intros _ a' []]|].
+  cbn [no_index forallb] in Hn. apply andb_prop in Hn. destruct Hn as [Ha Hn].
+  assert (Hai : a_index a = None) by (destruct (a_index a); [discriminate|reflexivity]).
+  cbn [build_args]. rewrite ab_positional, ab_index, Hai. cbn [is_some negb]. rewrite andb_true_r.
+  rewrite npos_cons.
+  destruct (a_is_positional a) eqn:Ep.
+  - destruct (IH (add_arg_to_groups (a_id a) (a_groups a) g) (pc + 1) Hn) as [IH1 IH2].
+    destruct (build_args t (add_arg_to_groups (a_id a) (a_groups a) g) (pc + 1)) as [t' g'] eqn:Eb. cbn [fst] in *.
+    split.
+    + assert (Hh : has_idx ((arg_build a) <| a_index := Some pc |>) = true) by reflexivity.
+      cbn [filter]. rewrite Hh. cbn [length]. rewrite IH1. reflexivity.
+    + intros Hl a' Hin Hp Hm. cbn [last_only_multiple] in Hl. apply andb_prop in Hl. destruct Hl as [Hl1 Hl2]. rewrite Ep in Hl1. cbn [andb] in Hl1.
+      destruct Hin as [<-|Hin].
+      * rewrite multiple_index in Hm. rewrite Hm in Hl1. cbn [negb orb] in Hl1. apply Nat.eqb_eq in Hl1. rewrite Hl1.
+        cbn. f_equal. lia.
+      * rewrite (IH2 Hl2 a' Hin Hp Hm). f_equal. lia.
+  - destruct (IH (add_arg_to_groups (a_id a) (a_groups a) g) pc Hn) as [IH1 IH2].
+    destruct (build_args t (add_arg_to_groups (a_id a) (a_groups a) g) pc) as [t' g'] eqn:Eb. cbn [fst] in *.
+    split.
+    + assert (Hh : has_idx (arg_build a) = false) by (unfold has_idx; rewrite ab_index, Hai; reflexivity).
+      cbn [filter]. rewrite Hh. exact IH1.
+    + intros Hl a' Hin Hp Hm. cbn [last_only_multiple] in Hl. apply andb_prop in Hl. destruct Hl as [_ Hl2].
+      destruct Hin as [<-|Hin]; [rewrite ab_positional, Ep in Hp; discriminate|]. apply (IH2 Hl2 a' Hin Hp Hm).
+Qed.
+
+Lemma lim_built L g : no_index L = true -> last_only_multiple L = true -> lim_args (fst (build_args L g 1)) = false.
+Proof.
+  intros Hn Hl. destruct (build_args_idx L g 1 Hn) as [H1 H2]. unfold lim_args. rewrite H1.
+  destruct (existsb _ _) eqn:E; [|reflexivity]. apply existsb_exists in E. destruct E as [a' [Hin E]].
+  apply filter_In in Hin. destruct Hin as [Hin Hp]. apply andb_prop in E. destruct E as [Hm E].
+  rewrite (H2 Hl a' Hin Hp Hm) in E. cbn [opt_default] in E.
+  assert (X : (N.of_nat (npos L) =? 1 + N.of_nat (npos L) - 1) = true) by (apply N.eqb_eq; lia).
+  rewrite X in E. discriminate.
+Qed.
+
+Lemma npos_app l1 l2 : npos (l1 ++ l2) = (npos l1 + npos l2)%nat.
+Proof. unfold npos. rewrite filter_app, app_length. reflexivity. Qed.
+Lemma lom_app : forall l1 l2, npos l2 = 0%nat -> last_only_multiple l2 = true -> last_only_multiple (l1 ++ l2) = last_only_multiple l1.
+Proof.
+  induction l1 as [|a t IH]; intros l2 H0 H2; [exact H2|]. cbn [app last_only_multiple]. rewrite npos_app, H0, Nat.add_0_r, (IH l2 H0 H2). reflexivity.
+Qed.
+
+(** THE COMMAND AS THE USER WRITES IT: not yet built; none of the five command-level settings; every declared argument
+    conventional ([conv_arg]); no explicit positional index; only the last declared positional takes several values / appends *)
+Definition user_conventional (c0 : cmd) : bool :=
+  negb (s_built (c_set c0)) && conventional0 c0 && no_index (c_args c0) && last_only_multiple (c_args c0).
+
+Theorem low_index_of_user c0 : s_built (c_set c0) = false ->
+  is_set s_allow_hyphen c0 = false -> is_set s_allow_negnum c0 = false -> is_set s_tva c0 = false ->
+  no_index (c_args c0) = true -> last_only_multiple (c_args c0) = true ->
+  low_index_multiple (build_self c0) = false.
+Proof.
+  intros Eb S1 S2 S3 Hn Hl. rewrite low_index_lim. rewrite (build_self_unbuilt c0 Eb), args_mark.
+  destruct (args_deprecated (pre_build c0)) as [h E]. rewrite E.
+  assert (Em : map (bs_deprecated_arg (pre_build c0) h) (c_args (pre_build c0)) = c_args (pre_build c0)).
+  { rewrite <- (map_id (c_args (pre_build c0))) at 2. apply map_ext. intros a.
+    apply deprecated_conv; [rewrite pre_hy; exact S1|rewrite pre_nn; exact S2|rewrite pre_tva; exact S3]. }
+  rewrite Em. destruct (args_pre_build c0) as [l [g [El Hlv]]]. rewrite El.
+  assert (Hl0 : npos l = 0%nat /\ last_only_multiple l = true /\ no_index l = true).
+  { clear -Hlv. induction l as [|a t IH]; [repeat split|].
+    destruct IH as [I1 [I2 I3]]; [intros b Hb; apply Hlv; right; exact Hb|].
+    destruct (Hlv a (or_introl eq_refl)) as [->| ->]; unfold npos, no_index in *; cbn [filter forallb last_only_multiple];
+      (split; [exact I1|split; [rewrite I2; reflexivity|exact I3]]). }
+  destruct Hl0 as [L1 [L2 L3]].
+  apply lim_built.
+  - unfold no_index in *. rewrite forallb_app, Hn, L3. reflexivity.
+  - rewrite (lom_app _ _ L1 L2). exact Hl.
+Qed.
+
+Theorem conv_of_user c0 : valid c0 = true -> user_conventional c0 = true -> conv (build_self c0) = true.
+Proof.
+  intros Hv H. unfold user_conventional in H.
+  apply andb_prop in H. destruct H as [H Hl]. apply andb_prop in H. destruct H as [H Hn]. apply andb_prop in H. destruct H as [Hb Hc].
+  apply (conv_of_conventional0 c0 Hv Hc). assert (Hc' := Hc). unfold conventional0 in Hc'.
+  apply andb_prop in Hc'. destruct Hc' as [Hc' _]. apply andb_prop in Hc'. destruct Hc' as [Hc' Htva].
+  apply andb_prop in Hc'. destruct Hc' as [Hc' Hnn]. apply andb_prop in Hc'. destruct Hc' as [_ Hhy].
+  apply low_index_of_user; try assumption.
+  - destruct (s_built (c_set c0)); [discriminate|reflexivity].
+  - destruct (is_set s_allow_hyphen c0); [discriminate|reflexivity].
+  - destruct (is_set s_allow_negnum c0); [discriminate|reflexivity].
+  - destruct (is_set s_tva c0); [discriminate|reflexivity].
+Qed.
+
+(** ** the same bridge for the lifted class [convx] *)
+Lemma ab_flags a : a_last (arg_build a) = a_last a /\ a_tva (arg_build a) = a_tva a /\
+  a_hyphen (arg_build a) = a_hyphen a /\ a_negnum (arg_build a) = a_negnum a.
+Proof.
+  unfold arg_build.
+  assert (H1 : forall a, a_last (ab_num a) = a_last a /\ a_tva (ab_num a) = a_tva a /\ a_hyphen (ab_num a) = a_hyphen a /\ a_negnum (ab_num a) = a_negnum a)
+    by (unfold ab_num; intros ?; repeat match goal with |- context [match ?x with _ => _ end] => destruct x end; repeat split).
+  assert (H2 : forall a, a_last (ab_vp a) = a_last a /\ a_tva (ab_vp a) = a_tva a /\ a_hyphen (ab_vp a) = a_hyphen a /\ a_negnum (ab_vp a) = a_negnum a)
+    by (unfold ab_vp; intros ?; repeat match goal with |- context [match ?x with _ => _ end] => destruct x end; repeat split).
+  assert (H3 : forall a, a_last (ab_dmissing a) = a_last a /\ a_tva (ab_dmissing a) = a_tva a /\ a_hyphen (ab_dmissing a) = a_hyphen a /\ a_negnum (ab_dmissing a) = a_negnum a)
+    by (unfold ab_dmissing; intros ?; repeat match goal with |- context [match ?x with _ => _ end] => destruct x end; repeat split).
+  assert (H4 : forall a, a_last (ab_default a) = a_last a /\ a_tva (ab_default a) = a_tva a /\ a_hyphen (ab_default a) = a_hyphen a /\ a_negnum (ab_default a) = a_negnum a)
+    by (unfold ab_default; intros ?; repeat match goal with |- context [match ?x with _ => _ end] => destruct x end; repeat split).
+  assert (H5 : forall a, a_last (ab_action a) = a_last a /\ a_tva (ab_action a) = a_tva a /\ a_hyphen (ab_action a) = a_hyphen a /\ a_negnum (ab_action a) = a_negnum a)
+    by (unfold ab_action; intros ?; repeat match goal with |- context [match ?x with _ => _ end] => destruct x end; repeat split).
+  destruct (H1 (ab_vp (ab_dmissing (ab_default (ab_action a))))) as [A1 [A2 [A3 A4]]].
+  destruct (H2 (ab_dmissing (ab_default (ab_action a)))) as [B1 [B2 [B3 B4]]].
+  destruct (H3 (ab_default (ab_action a))) as [C1 [C2 [C3 C4]]].
+  destruct (H4 (ab_action a)) as [D1 [D2 [D3 D4]]]. destruct (H5 a) as [E1 [E2 [E3 E4]]].
+  repeat split; congruence.
+Qed.
+
+(** a declared argument of the lifted class: no explicit index; an option has neither [last] nor [trailing_var_arg]
+    ([require_equals], terminators, hyphen / negative-number values, and for positionals [last(true)] / [trailing_var_arg]: free) *)
+Definition convx_arg0 (a : arg) : bool :=
+  negb (is_some (a_index a)) && (a_is_positional a || (negb (a_last a) && negb (a_tva a))).
+Definition user_conventionalx (c0 : cmd) : bool :=
+  negb (s_built (c_set c0))
+  && negb (is_set s_sub_precedence c0)
+  && negb (is_set s_allow_hyphen c0) && negb (is_set s_allow_negnum c0) && negb (is_set s_tva c0)
+  && forallb convx_arg0 (c_args c0).
+
+Lemma convx_arg0_index : forall l, forallb convx_arg0 l = true -> no_index l = true.
+Proof.
+  induction l as [|a t IH]; intros H; [reflexivity|]. cbn [forallb] in H. apply andb_prop in H. destruct H as [Ha Ht].
+  unfold convx_arg0 in Ha. apply andb_prop in Ha. destruct Ha as [Ha _]. unfold no_index. cbn [forallb]. rewrite Ha. apply IH. exact Ht.
+Qed.
+
+Theorem convx_of_user c0 : valid c0 = true -> user_conventionalx c0 = true -> convx (build_self c0) = true.
+Proof.
+  intros Hv H. unfold user_conventionalx in H.
+  apply andb_prop in H. destruct H as [H Hargs]. apply andb_prop in H. destruct H as [H Htva].
+  apply andb_prop in H. destruct H as [H Hnn]. apply andb_prop in H. destruct H as [H Hhy].
+  apply andb_prop in H. destruct H as [Hb Hsp].
+  assert (Eb : s_built (c_set c0) = false) by (destruct (s_built (c_set c0)); [discriminate|reflexivity]).
+  assert (S1 : is_set s_allow_hyphen c0 = false) by (destruct (is_set s_allow_hyphen c0); [discriminate|reflexivity]).
+  assert (S2 : is_set s_allow_negnum c0 = false) by (destruct (is_set s_allow_negnum c0); [discriminate|reflexivity]).
+  assert (S3 : is_set s_tva c0 = false) by (destruct (is_set s_tva c0); [discriminate|reflexivity]).
+  unfold convx. rewrite (valid_assert_app c0 Hv).
+  rewrite (is_set_build_self s_sub_precedence c0 (fun s => eq_refl) (set_sp c0)).
+  rewrite Hsp. cbn [andb negb].
+  apply (built_args_pred convx_arg0 convx_arg c0); try assumption.
+  - intros a Ha E. unfold convx_arg0 in Ha. apply andb_prop in Ha. destruct Ha as [Hi Ha].
+    destruct (ab_flags a) as [F1 [F2 [F3 F4]]]. rewrite ab_positional, ab_index in E.
+    destruct (a_index a) eqn:Ei; [discriminate Hi|]. cbn [is_some negb] in E. rewrite andb_true_r in E. rewrite E in Ha.
+    unfold convx_arg. rewrite ab_index, Ei, F1, F2. cbn [is_some negb orb] in *. exact Ha.
+  - intros a n Ha Hp _. reflexivity.
+  - reflexivity.
+  - reflexivity.
+  - intros Hbt. rewrite Hbt in Eb. discriminate.
+Qed.
